@@ -68,7 +68,7 @@ def essential(step):
 def run(tier, seed):
     ctx = core.Ctx(PID, tier, seed, LEVEL)
     rng = ctx.rng
-    npairs = 600 if tier == "quick" else 12000
+    npairs = 600 if tier == "quick" else core.share(12000)
     nint = 3
     ctx.rule = ("random program pairs A,B from the core / derived-form / store-history generators (identical names on purpose); A additionally defines macros (also named like B's), "
                 "redefines cond let or and when begin case and builtins, fails imports and raises errors; %d random interleavings per pair over two instances on one thread, a third "
